@@ -5,6 +5,7 @@ go 1.26
 require (
 	github.com/IrineSistiana/bytespool v0.0.0-20240303022030-cfcf97e7141f
 	github.com/IrineSistiana/mosproxy v0.0.0
+	github.com/maypok86/otter v1.2.0
 	github.com/panjf2000/gnet/v2 v2.3.6
 	github.com/rs/zerolog v1.32.0
 	golang.org/x/net v0.22.0
@@ -20,7 +21,6 @@ require (
 	github.com/klauspost/compress v1.17.7 // indirect
 	github.com/mattn/go-colorable v0.1.13 // indirect
 	github.com/mattn/go-isatty v0.0.20 // indirect
-	github.com/maypok86/otter v1.2.0 // indirect
 	github.com/mitchellh/mapstructure v1.5.0 // indirect
 	github.com/prometheus/client_golang v1.19.0 // indirect
 	github.com/prometheus/client_model v0.6.0 // indirect
